@@ -234,6 +234,17 @@ func (e *Env) ident(name string, hint string) (Term, types.Type) {
 			return e.evTerm(ev), ev.T
 		}
 	}
+	// a local that was renamed since the contract was written (locals.go)
+	if to, ok := e.f.aliasOf(name); ok {
+		if ev, ok := e.vars[to]; ok {
+			return e.evTerm(ev), ev.T
+		}
+		if e.lookup != nil {
+			if ev, ok := e.lookup(to); ok {
+				return e.evTerm(ev), ev.T
+			}
+		}
+	}
 	// package-level constant?
 	if e.pkg != nil {
 		if obj := e.pkg.Scope().Lookup(name); obj != nil {
